@@ -169,22 +169,26 @@ class _L1Self:
         def incremental_hasher():
             return _LenHasher()
 
-    @staticmethod
-    def read_metadata(fd):
-        return {'fd': fd}
+    st_sizes = {}
+
+    @classmethod
+    def read_metadata(cls, fd):
+        # what fstat reports need not be what was read (procfs, files still growing): the layout must follow the bytes
+        return {'fd': fd, 'st_size': cls.st_sizes.get('any', 0)}
 
 
 _MK_STREAM_FILES = lift.lift_closure('replicat.repository', 'snapshot', '_stream_files',
                                      ['self', 'files', 'state'], overrides={'logger': rt.Nop(), 'bytes': lambda n: _Pad(n)})
 
 
-def l1_layout(s0: int, s1: int, s2: int, piece: int) -> bool:
+def l1_layout(s0: int, s1: int, s2: int, piece: int, reported: int = 0) -> bool:
     """
     pre: 0 <= s0 and 0 <= s1 and 0 <= s2 and piece >= 1
-    pre: s0 <= 3 * piece and s1 <= 3 * piece and s2 <= 3 * piece
+    pre: s0 <= 3 * piece and s1 <= 3 * piece and s2 <= 3 * piece and reported >= 0
     post: _
     """
     sizes = [s0, s1, s2]
+    _L1Self.st_sizes['any'] = reported
     files = [_FakePath('f%d' % i, s) for i, s in enumerate(sizes)]
     state = R._SnapshotState()
     gen = _MK_STREAM_FILES(_L1Self, files, state)(piece)
@@ -206,7 +210,7 @@ def l1_layout(s0: int, s1: int, s2: int, piece: int) -> bool:
             ok = False
         if f.stream_start % 4 != 0 or f.stream_start < prev_end or f.stream_start - prev_end > 3:
             ok = False
-        if f.digest != ('dg', sizes[i]) or f.metadata != {'fd': 99} or f.path != 'f%d' % i:
+        if f.digest != ('dg', sizes[i]) or f.metadata != {'fd': 99, 'st_size': reported} or f.path != 'f%d' % i:
             ok = False
         prev_end = f.stream_end
     if state.bytes_with_padding != prev_end:
@@ -418,7 +422,7 @@ CONFIGS = [
     dict(encrypted=False, hashing={'name': 'blake2b', 'length': 16}),
 ]
 CHUNKING = [(4, 8), (5, 10), (1, 4), (8, 8), (3, 9)]
-N_ARGCODES = 9
+N_ARGCODES = 10
 N_PRECODES = 6
 
 
@@ -469,9 +473,13 @@ def roundtrip_case(sizes, kind, argcode, precode, conc, cfg, chunking):
             (ext / 'e.bin').write_bytes(world.content(kind, 5, sizes[0]))
             (src / 'dlink').symlink_to(ext, target_is_directory=True)
             args = [src]
-        else:
+        elif argcode == 8:
             (src / 'sub' / 'flink').symlink_to(a)
             args = [src / 'sub', a]
+        else:
+            # a directory link that aliases another directory of the same walk (releases/v1 + current -> releases/v1)
+            (src / 'alias').symlink_to(src / 'sub' / 'deep', target_is_directory=True)
+            args = [src]
         expected = _expected(args)
         exp_state = {}
         for sp, p in expected.items():
@@ -558,10 +566,10 @@ def e_sizes(k: int) -> bool:
 
 def e_args(k: int) -> bool:
     """
-    pre: shard(9 * 3 * 3 * 2)[0] <= k < shard(9 * 3 * 3 * 2)[1]
+    pre: shard(10 * 3 * 3 * 2)[0] <= k < shard(10 * 3 * 3 * 2)[1]
     post: _
     """
-    argcode, i0, i1, i2 = digits(k, [9, 3, 3, 2])
+    argcode, i0, i1, i2 = digits(k, [10, 3, 3, 2])
     with NoTracing():
         return _e('e_args', [[0, 5, 10][i0], [0, 4, 17][i1], [0, 9][i2]], 0, argcode, 0, 2, 1, 0)
 
@@ -586,7 +594,7 @@ def e_cfg(k: int) -> bool:
         return _e('e_cfg', [[0, 9, 40][i0], 12, 21], 1, 0, 0, [1, 2, 5][conci], cfgi, chi)
 
 
-FULL_RADICES = [11, 11, 3, 4, 9, 6, 3, 5, 5]
+FULL_RADICES = [11, 11, 3, 4, 10, 6, 3, 5, 5]
 FULL_N = 1
 for _r in FULL_RADICES:
     FULL_N *= _r
